@@ -114,6 +114,10 @@ def write_config(path, kind, values: dict, sectioned: bool, kebab: bool):
     if kind == "pyproject-nosection":
         body = "[tool.other]\nx = 1\n"
         fname = "pyproject.toml"
+    elif kind == "pyproject-empty-table":
+        # the table exists but sets nothing: still THE config file of this directory (the search stops here)
+        body = "[tool.other]\nx = 1\n\n[tool.flowmark]\n# width = 100\n"
+        fname = "pyproject.toml"
     else:
         fname = kind
         prefix = "tool.flowmark." if kind == "pyproject.toml" else ""
@@ -183,8 +187,8 @@ class C16(Prop):
                             yield {"kind": "setting", "setting": s, "flag": flag, "config": cfg, "auto": auto,
                                    "cfg_kind": r.choice([".flowmark.toml", "flowmark.toml", "pyproject.toml"]), "sectioned": r.random() < 0.5,
                                    "kebab": r.random() < 0.5, "where": r.choice(["cwd", "parent", "grandparent"]),
-                                   "extra_cfg": r.random() < 0.5, "spelling": r.choice(["canonical", "canonical", "equals", "prefix", "glued"])}
-        kinds = [None, ".flowmark.toml", "flowmark.toml", "pyproject.toml", "pyproject-nosection"]
+                                   "extra_cfg": r.random() < 0.5, "spelling": r.choice(["canonical", "canonical", "equals", "prefix", "glued"]), "via_sys_argv": r.random() < 0.35}
+        kinds = [None, ".flowmark.toml", "flowmark.toml", "pyproject.toml", "pyproject-nosection", "pyproject-empty-table"]
         j = 0
         for a in kinds:
             for b in kinds:
@@ -226,20 +230,28 @@ class C16(Prop):
             f.write("# vf boundary\n")
         return root, work
 
+    via_sys_argv = False  # True: the console-script route, main() without an argument list (arguments in sys.argv)
+
     def main(self, argv, cwd):
         out, err = io.StringIO(), io.StringIO()
         old = os.getcwd()
+        old_argv = sys.argv
         os.chdir(cwd)
         try:
             with contextlib.redirect_stdout(out), contextlib.redirect_stderr(err):
                 try:
-                    rc = self.cli.main(argv)
+                    if self.via_sys_argv:
+                        sys.argv = ["flowmark"] + list(argv)
+                        rc = self.cli.main()
+                    else:
+                        rc = self.cli.main(argv)
                 except SystemExit as e:
                     rc = e.code if isinstance(e.code, int) else 1
         except Exception as e:  # noqa: BLE001
             rc = f"raised {type(e).__name__}: {e}"
         finally:
             os.chdir(old)
+            sys.argv = old_argv
         return rc, out.getvalue(), err.getvalue()
 
     def observe(self, work, flags, auto, eff, col, case, monitor_prefix=""):
@@ -317,10 +329,15 @@ class C16(Prop):
                 where = {"cwd": work, "parent": os.path.dirname(work), "grandparent": os.path.dirname(os.path.dirname(work))}[case["where"]]
                 write_config(where, case["cfg_kind"], config, case["sectioned"], case["kebab"])
             eff = effective(cli_vals, case["auto"], config)
+            self.via_sys_argv = bool(case.get("via_sys_argv"))
+            col.hist("entry", "main() with sys.argv" if self.via_sys_argv else "main(argv)")
             col.distinct(s, case["flag"], case["config"], case["auto"], case["cfg_kind"], case["where"], case["sectioned"], case["kebab"])
             col.hist("config_kind", case["cfg_kind"] if config is not None else "none")
             col.hist("setting", s)
-            self.observe(work, flags, case["auto"], eff, col, case)
+            try:
+                self.observe(work, flags, case["auto"], eff, col, case)
+            finally:
+                self.via_sys_argv = False
             if hash((s, case["flag"])) % 23 == 0:
                 col.sample({"case": case, "flags": flags, "config": config, "expected_effective": eff})
         finally:
@@ -332,12 +349,18 @@ class C16(Prop):
             parent = os.path.dirname(work)
             widths = {}
             w = 30
-            order = [".flowmark.toml", "flowmark.toml", "pyproject.toml"]
+            order = [".flowmark.toml", "flowmark.toml", "pyproject.toml", "pyproject-empty-table"]
             for where, kinds in ((work, case["cwd"]), (parent, case["parent"])):
+                seen_names = set()
                 for k in kinds:
+                    fname = "pyproject.toml" if k.startswith("pyproject") else k
+                    if fname in seen_names:
+                        continue  # one pyproject.toml per directory
+                    seen_names.add(fname)
                     w += 7
                     write_config(where, k, {"width": w}, False, False)
-                    widths[(where, k)] = w
+                    # a file that sets nothing yields the built-in default width
+                    widths[(where, k)] = w if k != "pyproject-empty-table" else DEFAULTS["width"]
             expect = None
             for where in (work, parent):
                 for k in order:
